@@ -1,9 +1,9 @@
 #!/bin/sh
-# usage: scripts/gate.sh [seeds...]   (default: 1 2 3)
+# usage: scripts/gate.sh [seeds...]   (default: 1 2 3 4 5 6)
 # The gate before every commit that touches a generator, a model or an oracle: all four quick
 # checks on the UNCHANGED tree, under several seeds, must be silent. Evidence goes to a temp dir.
 V=${VERIF_DIR:-/verif}; cd "$V"
-seeds=${*:-"1 2 3"}
+seeds=${*:-"1 2 3 4 5 6"}
 tmp=$(mktemp -d /tmp/vgate-XXXXXX); trap 'rm -rf "$tmp"' EXIT
 bad=0
 if [ -n "$(git -C ${VERIF_REPO:-/repo} status --porcelain)" ]; then echo "GATE: the repository tree is not clean"; exit 2; fi
